@@ -57,7 +57,7 @@ func main() {
 					{P: percseq.Params{Name: "lifetime-two-keys", Cfg: small, Keys: []string{"a", "b"}, Txns: tx, Ops: lifeWide,
 						MaxReq: 8, Namespaced: true, NSPerDB: 128, Dedup: true}, Depth: 8},
 					{P: percseq.Params{Name: "placement", Cfg: small, Keys: []string{"a"}, Txns: tx, Ops: place,
-						MaxReq: 5, MaxMaint: 6, Maint: []string{"rf", "l0-base", "ingest-drain", "ingest-keep", "l0-l0", "reopen"}, Dedup: true}, Depth: 11},
+						MaxReq: 4, MaxMaint: 5, Maint: []string{"rf", "l0-base", "ingest-drain", "ingest-keep", "l0-l0", "reopen"}, Dedup: true}, Depth: 9},
 					{P: percseq.Params{Name: "placement-fine-art", Cfg: dbh.Config{Engine: "art", Buckets: 2}, Keys: []string{"a"}, Txns: tx, Ops: place[:4],
 						MaxReq: 4, MaxMaint: 5, Maint: []string{"rotate", "flush", "l0-base", "ingest-drain", "ingest-keep", "reopen"}, Dedup: true}, Depth: 9},
 				}
